@@ -467,3 +467,172 @@ class G:
             c, k = r.choice(spots)
             c[k] = self.value(1)
         return s
+
+
+# ---------------------------------------------------------------------- references
+from urllib.parse import quote as _quote
+
+HOSTILE = ["a", "a/b", "~x", "~01", "m~n", "a b", "", "%25", "100%", "é", "\U0001F600", "0", "01", "x#y", "q?r", "\"q\"", "back\\slash", "~1", "/", "~"]
+
+
+def slots(s, d):
+    """(container, key) pairs such that container[key] is a subschema of s (one level)"""
+    out = []
+    if not isinstance(s, dict):
+        return out
+    for k in ("properties", "patternProperties", "dependencies", "definitions"):
+        v = s.get(k)
+        if isinstance(v, dict):
+            for n, sub in v.items():
+                if isinstance(sub, (dict, bool)) and not (k == "dependencies" and not isinstance(sub, dict)):
+                    out.append((v, n))
+    for k in ("additionalProperties", "additionalItems", "contains", "propertyNames", "not", "if", "then", "else", "items", "extends"):
+        v = s.get(k)
+        if isinstance(v, dict) or (isinstance(v, bool) and d in ("d6", "d7") and k not in ("extends",)):
+            if k in ("contains", "propertyNames", "if", "then", "else") and d not in ("d6", "d7"):
+                continue
+            if k in ("if", "then", "else") and d != "d7":
+                continue
+            if k == "not" and d == "d3":
+                continue
+            if k == "extends" and d != "d3":
+                continue
+            if isinstance(v, bool) and k in ("additionalProperties", "additionalItems"):
+                continue
+            out.append((s, k))
+    for k in ("allOf", "anyOf", "oneOf", "items", "extends", "type", "disallow"):
+        v = s.get(k)
+        if isinstance(v, list):
+            if k in ("allOf", "anyOf", "oneOf") and d == "d3":
+                continue
+            if k in ("extends", "disallow") and d != "d3":
+                continue
+            if k == "type" and d != "d3":
+                continue
+            for i, sub in enumerate(v):
+                if isinstance(sub, dict) or (isinstance(sub, bool) and d in ("d6", "d7") and k not in ("type", "disallow")):
+                    out.append((v, i))
+    return out
+
+
+def all_slots(s, d, depth=0, acc=None):
+    acc = [] if acc is None else acc
+    for c, k in slots(s, d):
+        acc.append((c, k, depth))
+        all_slots(c[k], d, depth + 1, acc)
+    return acc
+
+
+def ptr_escape(name):
+    return name.replace("~", "~0").replace("/", "~1")
+
+
+class RefG(G):
+    """schemas with references: returns (root, store, world_docs, info)"""
+
+    def frag_for(self, tokens):
+        r = self.r
+        p = "".join("/" + ptr_escape(t) for t in tokens)
+        mode = r.randrange(3)
+        if mode == 0:
+            return _quote(p, safe="/~!$&'()*+,;=:@")
+        if mode == 1:
+            return p.replace("%", "%25")
+        return _quote(p, safe="")  .replace("%2F", "/") if r.random() < 0.5 else _quote(p, safe="/~")
+
+    def ref_schema(self, d, depth=2):
+        r = self.r
+        idk = "id" if d in ("d3", "d4") else "$id"
+        root = self.schema(d, depth)
+        if not isinstance(root, dict):
+            root = {}
+        store, world = {}, {}
+        info = {"kinds": []}
+        base = ""
+        if r.random() < 0.5:
+            base = r.choice(["http://ex.org/root.json", "http://ex.org/dir/root.json", "urn:x:root"])
+            root[idk] = base
+        ext_urls = ["http://ex.org/doc1.json", "http://ex.org/dir/doc2.json", "http://other.org/d.json"]
+        sl = [t for t in all_slots(root, d) if not (d == "d3" and isinstance(t[0][t[1]], dict) and "required" in t[0][t[1]])]
+        r.shuffle(sl)
+        n = r.choice([1, 1, 2, 3])
+        defs = {}
+        for c, k, _ in sl[:n]:
+            sub = c[k]
+            if isinstance(sub, dict) and "$ref" in sub:
+                continue
+            kind = r.choice(["local", "local", "store", "fetch", "relative", "missing-local", "missing-remote", "recursive", "chain"])
+            info["kinds"].append(kind)
+            name = r.choice(HOSTILE)
+            if kind == "local":
+                defs[name] = sub
+                c[k] = {"$ref": "#" + self.frag_for(["definitions", name])}
+            elif kind == "chain":
+                name2 = name + "2"
+                defs[name] = sub
+                defs[name2] = {"$ref": "#" + self.frag_for(["definitions", name])}
+                c[k] = {"$ref": "#" + self.frag_for(["definitions", name2])}
+            elif kind in ("store", "fetch"):
+                url = r.choice(ext_urls)
+                target = store if kind == "store" else world
+                other = world if kind == "store" else store
+                if url in other:
+                    target = other
+                doc = target.setdefault(url, {"defs": {}})
+                if "defs" not in doc:
+                    doc["defs"] = {}
+                doc["defs"][name] = sub
+                c[k] = {"$ref": url + r.choice(["#", "#"]) + self.frag_for(["defs", name])}
+            elif kind == "relative":
+                if not base.startswith("http"):
+                    base = "http://ex.org/dir/root.json"
+                    root[idk] = base
+                url = "http://ex.org/dir/rel.json"
+                doc = store.setdefault(url, {"defs": {}})
+                doc["defs"][name] = sub
+                c[k] = {"$ref": "rel.json#" + self.frag_for(["defs", name])}
+            elif kind == "missing-local":
+                c[k] = {"$ref": "#/definitions/" + r.choice(["nope", "a/b", "0"])}
+            elif kind == "missing-remote":
+                c[k] = {"$ref": r.choice(["http://nowhere.org/x.json", "http://ex.org/doc1.json#/nope", "other-missing.json"])}
+            elif kind == "recursive":
+                # a guarded cycle: the reference sits below an instance-descending applicator
+                descending = (c is root.get("properties") or c is root.get("patternProperties")
+                              or (c is root and k in ("items", "additionalProperties", "additionalItems")))
+                if descending:
+                    c[k] = {"$ref": "#"}
+        if defs:
+            if not isinstance(root.get("definitions"), dict):
+                root["definitions"] = {}
+            root["definitions"].update(defs)
+        # sibling keywords next to $ref must be ignored
+        if r.random() < 0.3:
+            for c, k, _ in all_slots(root, d):
+                if isinstance(c[k], dict) and "$ref" in c[k] and r.random() < 0.5:
+                    c[k]["type"] = r.choice(SIMPLE_TYPES)
+                    c[k]["minimum"] = 10 ** 9
+        # an id on the path that changes the base for relative references below it
+        if r.random() < 0.2 and isinstance(root.get("properties"), dict) and root["properties"]:
+            pk = r.choice(list(root["properties"]))
+            if isinstance(root["properties"][pk], dict) and "$ref" not in root["properties"][pk]:
+                root["properties"][pk][idk] = r.choice(["sub/", "http://ex.org/other/"])
+        return root, store, world, info
+
+    def hist_ops(self, d, root, n):
+        r = self.r
+        ops = []
+        for _ in range(n):
+            i = self.instance_for(d, root)
+            k = r.randrange(10)
+            if k < 2:
+                ops.append(["isValid", i])
+            elif k < 4:
+                ops.append(["exhaust", i])
+            elif k < 5:
+                ops.append(["validate", i])
+            elif k < 8:
+                ops.append(["take", r.choice([1, 1, 2, 3]), i])
+            else:
+                ops.append(["resolve", r.choice(["#", "#/definitions/a", "http://ex.org/doc1.json", "http://ex.org/doc1.json#/defs/a",
+                                                  "rel.json", "#/nope", "http://nowhere.org/x.json", "http://ex.org/dir/doc2.json#"])])
+        return ops
